@@ -57,6 +57,11 @@ def decorate(w, wn, s, rnd):
         if tanks:
             wn.add_control("ctl_lvl", C.Control(C.ValueCondition(wn.get_node(tanks[0]), "level", ">", 4.0),
                                                 C.ControlAction(p, "status", w.network.LinkStatus.Open)))
+        if rnd.random() < 0.6:
+            # a rule on the clock time, thresholds in every part of the day (midnight hour, morning, noon hour, evening)
+            sec = rnd.choice([15 * 60, 6 * 3600, 11 * 3600 + 59 * 60, 12 * 3600, 12 * 3600 + 1800, 12 * 3600 + 3599, 13 * 3600, 21 * 3600 + 900])
+            wn.add_control("rule_clk", C.Rule(C.TimeOfDayCondition(wn, rnd.choice([">=", "<", ">", "<="]), sec),
+                                              [C.ControlAction(p, "status", w.network.LinkStatus.Open)], priority=rnd.choice([2, 4]), name="rule_clk"))
         # simple controls at clock times of every part of the day (AM, PM, the 12 o'clock hours) and at a simulation time
         for k in range(rnd.randint(0, 3)):
             sec = rnd.choice([0, 900, 6 * 3600, 11 * 3600 + 59 * 60, 12 * 3600, 12 * 3600 + 1800, 14 * 3600 + 1800, 21 * 3600, 23 * 3600 + 3540])
